@@ -119,7 +119,7 @@ TSetPolicy ==
 TLocate ==
   /\ IsEvent("Locate")
   /\ st[Ev.obj].live
-  /\ Locate(st[Ev.obj], Ev.res)
+  /\ Locate(st[Ev.obj], Ev.args, Ev.res)
   /\ UNCHANGED <<st, hl, memo>>
 
 THullCreate ==
